@@ -256,7 +256,7 @@ func corpus() []transcript {
 	add("authenticate", []step{{0, greetPlain}, {1, "+ \r\n"}, {2, "T1 OK [CAPABILITY IMAP4rev1] done\r\n"}}, func(c *imapclient.Client, r *rec) {
 		r.done("Authenticate", 1, c.Authenticate(sasl.NewPlainClient("", "u", "p")))
 	})
-	add("authenticate-login-2step", []step{{0, greetPlain}, {1, "+ VXNlcm5hbWU6\r\n"}, {2, "+ UGFzc3dvcmQ6\r\n"}, {3, "T1 OK [CAPABILITY IMAP4rev1] done\r\n"}}, func(c *imapclient.Client, r *rec) {
+	add("authenticate-login-2step", []step{{0, greetPlain}, {1, "+ \r\n"}, {2, "+ UGFzc3dvcmQ6\r\n"}, {3, "T1 OK [CAPABILITY IMAP4rev1] done\r\n"}}, func(c *imapclient.Client, r *rec) {
 		r.done("Authenticate", 1, c.Authenticate(sasl.NewLoginClient("u", "p")))
 	})
 	add("authenticate-no", []step{{0, greetPlain}, {1, "T1 NO nope\r\n"}}, func(c *imapclient.Client, r *rec) {
